@@ -336,6 +336,32 @@ Definition registry_add (r : creg) (f : sfile) : add_err + creg :=
       end
   end.
 
+(* the tree as pinned (before the I9 repair, commit 4041f47): no duplicate test;
+   kept for the refutation in Properties/C13.v *)
+Fixpoint add_units_pinned (ftext : bstr) (us : list (add_err + tmpl_unit)) (r : registry) : add_err + registry :=
+  match us with
+  | [] => inr r
+  | inl e :: _ => inl e
+  | inr u :: rest => add_units_pinned ftext rest (reg_append r (tu_template u) ftext)
+  end.
+Definition registry_add_pinned (r : creg) (f : sfile) : add_err + creg :=
+  match find_namespace (sf_body f) with
+  | inl e => inl e
+  | inr (nsname, nsae) =>
+      match add_units_pinned (sf_text f) (file_units (sf_name f) nsname nsae None (sf_body f)) (cr_reg r) with
+      | inl e => inl e
+      | inr reg' =>
+          inr {| cr_soyfiles := cr_soyfiles r ++ [{| sf_name := sf_name f; sf_text := sf_text f;
+                                                      sf_body := processed_body (sf_name f) nsname nsae None (sf_body f) |}];
+                 cr_reg := reg' |}
+      end
+  end.
+Fixpoint add_files_pinned (r : creg) (fs : list sfile) : add_err + creg :=
+  match fs with
+  | [] => inr r
+  | f :: rest => match registry_add_pinned r f with inl e => inl e | inr r' => add_files_pinned r' rest end
+  end.
+
 (* ------------------------------------------------------------------ *)
 (* parsepasses/datarefcheck.go                                        *)
 (* ------------------------------------------------------------------ *)
